@@ -33,21 +33,34 @@ from . import common as C
 
 TRACE = True
 TRUSTED = [
-    "virtual-time simulator (harness/vsim.py): fake transports, integer-millisecond clock, one IPv4 socket per instance (IPv6 sources are delivered to its listener as "
-    "4-tuples with flowinfo and scope id, so the unpacking, the scoped records and the scoped address handling of lookups run; replies to them are not sent by the IPv4 "
-    "transport); OSError from real sockets is not modelled",
-    "the Lean host model treats the record manager / browser callbacks / lookup listeners, the answer computation of the query handler and the outgoing queues as "
-    "uninterpreted components (named hypotheses of C15_total_partial); they are exercised only by the fuzz streams of stage O",
-    "text layer of names: '.'.join(labels) followed by split('.') is modelled as splitting every decoded label at U+002E (compared per datagram by `c15enc`)",
-    "logging is not modelled",
+    "virtual-time simulator (harness/vsim.py): fake transports, integer-millisecond clock.  Five cases in six: one IPv4 socket (IPv6 sources are delivered to its "
+    "listener as 4-tuples with flow info and scope id; replies to them are not sent by an IPv4 transport).  One case in six: a dual-stack host (IPv6 wildcard listen "
+    "socket, IPv4 and IPv6 respond sockets, sendto as the kernel treats link-local destinations: EINVAL without a scope id).  Other OSErrors of real sockets are not modelled",
+    "the closed composite (Zc.Survive.Closed.hstepD over `down` and `downQ`) is hand-written and tied to the code block by block: datagram / TC-timer blocks of the main "
+    "stream through the host model with a scripted downstream (`c15run`: destination, exception, timers, deferred counts); the API stream through the whole composite over "
+    "both downstreams (`c15api`, `c15apiq`: callbacks, registry keys, has_entries, cache size, browsers, lookups, user-listener call counts; 12 of the 20 block kinds); "
+    "`c15inv`: eleven clauses of the invariant on states extracted from the real instance.  NOT compared with Lean: bytes and destinations of what is sent (judged by "
+    "stage O: canaries and every well-formed query of the stream), scheduler / outgoing-queue / question-history state.  Block kinds browserFire, lookupQuery, flush, "
+    "schedStart, serviceSend, waitNotify, waitRecords, waitTimeout are theorem-only: the real timers and tasks run under stage O, their model blocks are not replayed",
+    "application callbacks are data of the model (user RecordUpdateListener methods: hypothesis UserOK; browser handlers: outputs of a block) and blocks are atomic: an API "
+    "call made from inside a callback is outside the model",
+    "scope ids are dropped by the model; `_without_scope_id`, `_get_unique_ignoring_scope`, `async_send` / `can_send_to` run under stage O only",
+    "text layer of names: '.'.join(labels) followed by split('.') is modelled as splitting every decoded label at U+002E (compared per datagram by `c15enc`; `TextGlue` is a theorem)",
+    "logging is not modelled; one case in eight runs with the `zeroconf` logger at DEBUG, so the `if debug:` branches execute under stage O",
+    "the watchdog measures CPU time of the process (wall-clock backstop 20 x): a call that blocks without computing for less than that is not reported",
 ]
 ASSUMPTIONS = [
-    "'keeps working' = the canaries of the property after EVERY stream: a QM PTR query (aggregated multicast path) and, 3 s later, a single-question QM SRV query "
-    "(immediate path) are each answered by multicast within 3 s; an announcement of a never-seen instance gives Added in every browser of that type at once; after an "
-    "announcement of the instance that was announced/withdrawn/re-announced inside the stream every browser's latest Added/Removed callback for it is Added; "
-    "plus: the lookup task ends normally",
+    "'keeps working', queries: EVERY well-formed query of the stream and after it (plain names, not truncated, not a probe, not byte-identical to a datagram of the "
+    "last second, no truncated packets of its address pending, IPv4 source with a port) is owed every record of a registered service that answers one of its questions "
+    "and of which it lists no known answer; each must be sent by multicast or by unicast to the asker within 3 s (aggregation <= 620 ms, protected second <= 1 s + 620 ms). "
+    "After the stream: QM PTR (aggregated path), QM SRV (immediate path), QU SRV for a just-multicast record, QM inside the protected second, legacy QU",
+    "'keeps working', announcements: an announcement of a never-seen instance gives Added in every browser of that type at once (asyncio browsers, and the threaded "
+    "ServiceBrowser within 30 s of wall clock); after an announcement of the instance that was announced/withdrawn/re-announced inside the stream every browser's latest "
+    "Added/Removed callback for it is Added; the lookup task ends normally",
     "'no exception escapes into the event loop' = nothing propagates out of datagram_received and the loop's exception handler is never called (timers armed by datagram processing included)",
     "'ignored' for an oversize datagram = no datagram sent, no callback, listener memory, cache and timers unchanged",
+    "'registered services' = 1-2 services from seven profiles: one IPv4 / IPv4+IPv6 / several addresses of each family / IPv6 only / no server argument; ASCII, non-ASCII "
+    "and 63-byte names; k=v, empty, binary and ~2.9 kB TXT",
 ]
 
 # ------------------------------------------------------------------------------------------
